@@ -37,7 +37,7 @@ def run(tier, seed, replay=None):
     return EL.standard_run(
         PID, tier, seed, replay, MC, corpus, wide={},
         nontrivial=lambda t: any(e.get("tiebreaks") for e in t["events"]),
-        role3={"quick": [dict(family="oneshot", max_ballots=1, max_w=2)], "thorough": [dict(family="oneshot", max_ballots=2, max_w=1), dict(family="tiered", max_ballots=3, max_w=2)]},
+        role3={"quick": [dict(family="oneshot", max_ballots=1, max_w=2), dict(family="composite", max_ballots=2, max_w=1)], "thorough": [dict(family="oneshot", max_ballots=2, max_w=1), dict(family="tiered", max_ballots=3, max_w=2)]},
         rule_text="role 1: TLC checks on the bounded model that a step has probability label < 1 only if the round it appends records a "
                   "tiebreak (RandomOnlyWithTiebreak), that the labels of the enabled draw sum to one (ProbSum) and that recorded "
                   "tiebreaks are strict orders of the tied set; role 2: every outcome of every random draw of the real code is "
